@@ -102,36 +102,62 @@ def run_case(case):
                 fail('bind-shape', 'value', 'bind_shape_matrix %r, expected %r' % (view['bind_shape'], exp['bind_shape']))
             if skin.geometry is not mesh.geometries.get(case['source_geom']):
                 fail('geometry', 'identity', 'skin.geometry is not the geometry object %s of the document' % case['source_geom'])
-            # ---- bound through the scene
+            # ---- bound through the scene: one bound skin per path to the controller instance,
+            # each with path . bind_shape, on every traversal
             try:
-                bound = list(mesh.scene.objects('controller'))
-                if len(bound) != 1 or not isinstance(bound[0], controller.BoundSkin):
-                    fail('bound', 'objects', "scene.objects('controller') yields %r" % (bound,))
-                else:
-                    b = bound[0]
-                    M = ints(numpy.asarray(b.geometry.matrix).reshape(-1))
-                    obs['bound'] = M
+                paths = case.get('paths') or [case['nodes']]
+                wants = []
+                for chain_ in paths:
                     path = [[1 if i == j else 0 for j in range(4)] for i in range(4)]
-                    for m in case['nodes']:
+                    for m in chain_:
                         path = matmul(path, rows4(m))
-                    want = matmul(path, rows4(exp['bind_shape']))
-                    if M is None or rows4(M) != want:
-                        fail('bound', 'matrix', 'bound matrix %r, path . bind_shape = %r' % (M, want))
-                    src_prims = list(skin.geometry.primitives)
-                    prims = list(b.primitives())
-                    if len(prims) != len(src_prims) or b.skin is not skin:
-                        fail('bound', 'primitives', '%d bound primitives for %d primitives of the source geometry'
-                             % (len(prims), len(src_prims)))
-                    else:
+                    wants.append(matmul(path, rows4(exp['bind_shape'])))
+                order = sorted(range(len(paths)), key=lambda k: wants[k])
+                src_prims = list(skin.geometry.primitives)
+                obs['bound'] = []
+                for trav in range(2):
+                    bound = list(mesh.scene.objects('controller'))
+                    if len(bound) != len(paths) or not all(isinstance(b, controller.BoundSkin) for b in bound):
+                        fail('bound', 'objects', "scene.objects('controller') yields %r for %d path(s) to the instance"
+                             % (bound, len(paths)))
+                        obs['bound'] = None
+                        break
+                    mats = [ints(numpy.asarray(b.geometry.matrix).reshape(-1)) for b in bound]
+                    if any(m is None for m in mats):
+                        fail('bound', 'matrix', 'a bound matrix is not integral: %r' % (mats,))
+                        obs['bound'] = None
+                        break
+                    # the property does not fix the order in which the instances are yielded
+                    got_order = sorted(range(len(bound)), key=lambda k: rows4(mats[k]))
+                    paired = [None] * len(paths)
+                    for gi, wi in zip(got_order, order):
+                        paired[wi] = gi
+                    obs['bound'].append([mats[paired[k]] for k in range(len(paths))])
+                    for k in range(len(paths)):
+                        b = bound[paired[k]]
+                        if rows4(mats[paired[k]]) != wants[k]:
+                            fail('bound', 'matrix', 'traversal %d: the bound matrices are %r, path . bind_shape for the %d '
+                                 'path(s) is %r' % (trav, [rows4(m) for m in mats], len(paths), wants))
+                            break
+                        prims = list(b.primitives())
+                        if len(prims) != len(src_prims) or b.skin is not skin:
+                            fail('bound', 'primitives', '%d bound primitives for %d primitives of the source geometry'
+                                 % (len(prims), len(src_prims)))
+                            break
+                        bad = False
                         for bp, sp in zip(prims, src_prims):
                             V = numpy.asarray(sp.vertex, dtype=numpy.float64)
-                            W = numpy.asarray(want, dtype=numpy.float64)
+                            W = numpy.asarray(wants[k], dtype=numpy.float64)
                             expv = V.dot(W[:3, :3].T) + W[:3, 3]
                             got = numpy.asarray(bp.primitive.vertex, dtype=numpy.float64)
                             if got.shape != expv.shape or not numpy.array_equal(got, expv) or len(bp) != len(sp) \
                                     or not numpy.array_equal(numpy.asarray(bp.primitive.vertex_index), numpy.asarray(sp.vertex_index)):
-                                fail('bound', 'primitives', 'a bound primitive is not the source primitive under path . bind_shape')
+                                fail('bound', 'primitives', 'traversal %d, path %d: a bound primitive is not the source '
+                                     'primitive under path . bind_shape' % (trav, k))
+                                bad = True
                                 break
+                        if bad:
+                            break
             except Exception as e:  # noqa
                 fail('bound', 'raised', 'binding the skin through the scene raised %r' % (e,))
     else:
